@@ -66,7 +66,7 @@ end RIndex
 
 namespace Vec
 def new {α} : List α := []
-def len {α} (xs : List α) : Nat := xs.length
+abbrev len {α} (xs : List α) : Nat := xs.length
 def push {α} (xs : List α) (x : α) : List α := xs ++ [x]
 /-- `Vec::pop`: the shortened vector and the removed element. -/
 def pop {α} (xs : List α) : List α × Option α := (xs.dropLast, xs.getLast?)
